@@ -375,6 +375,41 @@ def growth_docs():
     return out
 
 
+def gen_wfstack_ops(rng):
+    """WFElemStack operation sequences (T06_wfmap): ONE flat map shared by all levels -- deep stacks (beyond 32/40/50),
+    many prefixes in total (beyond 16/20/25/31/38/47), the same prefix declared twice in a level (the latest wins),
+    siblings overwriting the entries of popped levels, lookups after every phase; never a lookup on an empty stack"""
+    ops = []
+    prefs = ["-", "xml", "xmlns"] + ["p%d" % i for i in range(rng.choice([3, 8, 45]))]
+    depth = 0
+    n = rng.choice([20, 60, 200, 400])
+    mode = rng.choice(["mixed", "deep", "wide", "siblings"])
+    for _ in range(n):
+        x = rng.random()
+        if mode == "deep" and x < 0.5 or x < 0.2:
+            ops.append("A"); depth += 1
+        elif x < (0.28 if mode not in ("deep", "siblings") else 0.6 if mode == "deep" else 0.36):
+            ops.append("P"); depth -= 1
+            if depth < 0:
+                break
+            if mode == "siblings":
+                ops.append("A"); depth += 1
+        elif x < (0.9 if mode == "wide" else 0.7):
+            ops += ["D", rng.choice(prefs), str(rng.choice([1, 1, 5, 6, 7, 8, 9]))]
+            if depth == 0:
+                break
+        elif depth > 0:
+            ops += ["M", rng.choice(prefs + ["zz"])]
+    if depth > 0:
+        for p in prefs[:12]:
+            ops += ["M", p]
+    return "wfstack " + " ".join(ops)
+
+
+def is_stack_req(req):
+    return req.startswith("stack ") or req.startswith("wfstack ")
+
+
 def gen_stack_ops(rng):
     """ElemStack operation sequences: deep stacks (beyond 32/40/50 levels), many prefixes per level (beyond 16/20/25/31),
     row reuse after pops, global prefixes, lookups of every prefix at random points"""
@@ -725,7 +760,7 @@ def process(ctx, xh, xm, cases, st):
             if key not in spec_idx:
                 spec_idx[key] = len(spec_req)
                 spec_req.append(key)
-        elif req.startswith("stack "):
+        elif is_stack_req(req):
             spec_idx["spec_" + req] = len(spec_req)
             spec_req.append("spec_" + req)
     stream_req, stream_idx = [], {}
@@ -747,7 +782,7 @@ def process(ctx, xh, xm, cases, st):
         if not parts:
             if "CRASH" in i or "EXC" in i:
                 return "crash / exception: " + i[:200]
-            if req.startswith("stack "):
+            if is_stack_req(req):
                 # the answers to the lookups must be those map_spec gives on the declarations sop_run leaves in scope; a
                 # history that pops / declares without an open scope must end in the corresponding exception
                 want = spec_out[spec_idx["spec_" + req]].split()
@@ -915,6 +950,7 @@ def gen_batches(ctx, feats):
                     cases.append(("dtd-%s-%s" % (api, sc), "parse %s %s %s %s" % (api, sc, g.ver, body), g))
         for _ in range(nstack * per // ndocs + 1):
             cases.append(("stack", gen_stack_ops(ctx.rng), None))
+            cases.append(("stack", gen_wfstack_ops(ctx.rng), None))
         yield cases
     ctx.coverage["input_distribution"] = {"documents": ndocs, "features": feats}
 
